@@ -60,11 +60,14 @@ AlszLen(m) == 8 + 128 * (8 + NCols(m) \div 8)
 KosSenderSess(k, m) ==
   << Op("R", k, "CO_OT_s", 40), Op("S", k, "CO_OT_r", 8 + 128 * 40),
      Op("R", k, "CO_OT_c0c1", 8 + 128 * 32), Op("R", k, "ALSZ_OT_setup", AlszLen(m)),
+     \* the seed of the check coefficients, chosen by the sender after it has received the matrix (fix, DESIGN 11)
+     Op("S", k, "KOS_OT_seed", 40),
      Op("R", k, "KOS_OT_x_t0_t1", 56), Op("S", k, "KOS_OT_corr", 8 + 16 * m) >>
 
 KosReceiverSess(k, m) ==
   << Op("S", k, "CO_OT_s", 40), Op("R", k, "CO_OT_r", 8 + 128 * 40),
      Op("S", k, "CO_OT_c0c1", 8 + 128 * 32), Op("S", k, "ALSZ_OT_setup", AlszLen(m)),
+     Op("R", k, "KOS_OT_seed", 40),
      Op("S", k, "KOS_OT_x_t0_t1", 56), Op("R", k, "KOS_OT_corr", 8 + 16 * m) >>
 
 \* fabitn: per peer, sender session first iff own index is smaller
